@@ -114,10 +114,15 @@ def validation_api(r):
             add_decl(main, m, i, n, inner.fqn, kind)
         return m
 
-    def method(svc, sname, rpc, fields, cs=False, ss=False, inp=None):
-        if inp is None:
+    shared = {}
+
+    def method(svc, sname, rpc, fields, cs=False, ss=False, inp=None, same_request_as=None):
+        if same_request_as is not None:          # several rpcs taking one and the same request message
+            inp, fdesc = shared[same_request_as]
+        elif inp is None:
             inp = request(rpc + "Request", fields).fqn
             fdesc = [decl_info(n) for n in fields]
+            shared[rpc] = (inp, fdesc)
         else:
             fdesc = None
         svc.rpc(rpc, inp, book.fqn, cs=cs, ss=ss)
@@ -138,6 +143,11 @@ def validation_api(r):
     method(svc1, "Library", "Ping", None, inp=EMPTY)
     method(svc2, "Admin", "CreateThing", ["request_id", "opt_id", "name", "count"])
     method(svc2, "Admin", "GetThing", ["name"])
+    # rpcs sharing CreateBook's request message: another unary one, and one of each streaming kind (also in the other service)
+    method(svc1, "Library", "CloneBook", None, same_request_as="CreateBook")
+    method(svc1, "Library", "StreamCreatedBooks", None, ss=True, same_request_as="CreateBook")
+    method(svc1, "Library", "UploadCreateBooks", None, cs=True, same_request_as="CreateBook")
+    method(svc2, "Admin", "TailThings", None, ss=True, same_request_as="CreateThing")
     return [main], desc
 
 
@@ -365,6 +375,23 @@ def systematic_settings(r, desc, full):
         out.append(("single-bad-selector", [other, {"selector": badsel, "auto_populated_fields": ["request_id"]}]))
         if full:
             out.append(("single-bad-selector", [{"selector": badsel, "auto_populated_fields": []}]))
+    # several methods sharing ONE request message and listing the SAME fields: each entry is judged on its own method
+    # (a streaming method after a unary one is still rejected; every order, equal and different field lists)
+    L = f"{PKG}.Library."
+    fl = spec_valid[:2]
+    for first, second in ((L + "CreateBook", L + "StreamCreatedBooks"), (L + "StreamCreatedBooks", L + "CreateBook"),
+                          (L + "CloneBook", L + "UploadCreateBooks"), (L + "CreateBook", L + "CloneBook"),
+                          (f"{PKG}.Admin.CreateThing", f"{PKG}.Admin.TailThings")):
+        f2 = ["request_id", "opt_id"] if "Admin" in first else fl
+        out.append(("shared-request-same-fields", [{"selector": first, "auto_populated_fields": list(f2)}, {"selector": second, "auto_populated_fields": list(f2)}]))
+        if full:
+            out.append(("shared-request-other-fields", [{"selector": first, "auto_populated_fields": list(f2)}, {"selector": second, "auto_populated_fields": list(f2[:1])}]))
+            out.append(("shared-request-other-fields", [{"selector": first, "auto_populated_fields": list(reversed(f2))}, {"selector": second, "auto_populated_fields": list(f2)}]))
+    out.append(("shared-request-same-fields", [{"selector": L + "CreateBook", "auto_populated_fields": list(fl)}, other,
+                                               {"selector": L + "CloneBook", "auto_populated_fields": list(fl)},
+                                               {"selector": L + "UploadCreateBooks", "auto_populated_fields": list(fl)}]))
+    out.append(("shared-request-same-bad-fields", [{"selector": L + "CreateBook", "auto_populated_fields": ["name"]}, {"selector": L + "CloneBook", "auto_populated_fields": ["name"]}]))
+    out.append(("shared-request-same-bad-fields", [{"selector": L + "CloneBook", "auto_populated_fields": ["name"]}, {"selector": L + "StreamCreatedBooks", "auto_populated_fields": ["name"]}]))
     # a selector that spells a method name with surrounding whitespace (YAML block scalar `selector: >` keeps the final line break)
     # names NO method: it must be rejected, alone and next to the entry of the method it resembles
     for ws in ([sel + "\n", " " + sel, sel + " ", sel + "\t", "\n" + sel + "\n"] if full else [sel + "\n", sel + " "]):
